@@ -184,9 +184,24 @@ def run_case(case):
             counters["spd_weak"] += 1
             if float(ev.min()) < -C * n * u * float(ev.abs().max()):
                 raise Violation(f"smallest eigenvalue {float(ev.min()):.3g} is negative beyond rounding", **desc)
+        # third-party kernel probe: loss of orthogonality of torch.linalg.eigh on this very input (normally ~n*u; MKL's
+        # divide-and-conquer was seen to return 2e-11 for tightly clustered float64 spectra) - it enters X = V f(L) V^T at first
+        # order and is added to the tolerances of (d) and (e) as the kernel's own measured error
+        kdef = 0.0
+        if n > 1:
+            for M_ in (A, A + eps * torch.eye(n, dtype=dtype)):
+                try:
+                    V_ = torch.linalg.eigh(M_)[1].to(D)
+                    kdef = max(kdef, float((V_.T @ V_ - torch.eye(n, dtype=D)).abs().max()))
+                except Exception:  # noqa
+                    pass
+            if kdef > 8 * n * u:
+                counters["kernel_orth_defect_cases"] = counters.get("kernel_orth_defect_cases", 0) + 1
+            else:
+                kdef = 0.0
         # (d) commutes with the input
         if n > 1 and float(Ad.norm()) > 0:
-            rc = float((Ad @ Xd - Xd @ Ad).norm()) / (C * n * u * float(Ad.norm()) * nX)
+            rc = float((Ad @ Xd - Xd @ Ad).norm()) / ((C * n * u + 4 * kdef) * float(Ad.norm()) * nX)
             counters["max_ratio_comm"] = max(counters["max_ratio_comm"], rc)
             if rc > 1:
                 raise Violation(f"does not commute with the input: ||AX-XA||/(||A|| ||X||) = {rc * C * n * u:.3g}", **desc)
@@ -199,6 +214,7 @@ def run_case(case):
                 B = ((B + B.T) / 2).to(dtype)
                 XB = mf.matrix_inverse_root(B, r, root_inv_config=cfg, epsilon=eps).to(D)
                 want = P @ Xd @ P.T
+                bound = bound + 4 * kdef * max(1.0, cond ** (1.0 / float(r)))
                 re = float((XB - want).norm() / want.norm()) / (2 * bound)
                 counters["equivariance_checked"] += 1
                 counters["max_ratio_equiv"] = max(counters["max_ratio_equiv"], re)
